@@ -1,0 +1,47 @@
+//go:build verif
+
+package webdoc
+
+import (
+	"sort"
+
+	"github.com/go-shiori/dom"
+)
+
+// VerifSummary describes the element list for the verification trace: one record
+// per element with its kind, its content flag and the scalars the specification
+// talks about. It only reads.
+func (doc *Document) VerifSummary() []interface{} {
+	out := make([]interface{}, 0, len(doc.Elements))
+	for _, e := range doc.Elements {
+		rec := map[string]interface{}{"k": e.ElementType(), "c": e.IsContent()}
+		switch el := e.(type) {
+		case *Text:
+			rec["g"] = el.GroupNumber
+			rec["w"] = el.NumWords
+			rec["lw"] = el.NumLinkedWords
+			rec["lv"] = el.TagLevel
+			rec["text"] = el.Text
+			labels := []string{}
+			for l := range el.Labels {
+				labels = append(labels, l)
+			}
+			sort.Strings(labels)
+			rec["labels"] = labels
+		case *Tag:
+			rec["name"] = el.Name
+			rec["start"] = el.Type == TagStart
+		case *Image:
+			rec["src"] = dom.GetAttribute(el.Element, "src")
+		case *Figure:
+			rec["src"] = dom.GetAttribute(el.Element, "src")
+		case *Video:
+			rec["src"] = dom.GetAttribute(el.Element, "src")
+		case *Embed:
+			rec["id"] = el.ID
+			rec["type"] = el.Type
+		}
+		out = append(out, rec)
+	}
+	return out
+}
